@@ -304,7 +304,8 @@ def run(ctx):
     try:
         for j, (f, text) in enumerate(cands[:ctx.n(30, 200)]):
             base = parse_outcome(text)
-            endings = [text.rstrip('\n'), text.rstrip('\n') + ' -- trailing comment', text.rstrip('\n') + ' /* c */', text + '\n\n', text.rstrip('\n') + ' -- a -- ']
+            # (the additions start on a line of their own: the last line of the text may itself be a `--` comment, which a second `--` would END)
+            endings = [text.rstrip('\n'), text.rstrip('\n') + '\n -- trailing comment', text.rstrip('\n') + '\n /* c */', text + '\n\n', text.rstrip('\n') + '\n -- a -- ']
             for k, variant_text in enumerate(endings):
                 pth = os.path.join(tmp, 'f%d_%d.asn' % (j, k))
                 with open(pth, 'w', encoding='utf-8') as fh:
@@ -359,13 +360,21 @@ def run(ctx):
 
 
 def is_multiword_finding(toks, variant):
-    """True iff the variant changed the layout between two words of a multi-word keyword."""
+    """True iff the variant changed the layout between two words of a multi-word keyword (token based: a regular expression over
+    the text backtracks exponentially on long runs of comments)."""
+    vt = lex(variant)
+    if vt is None:
+        return False
+    words = [i for i, t in enumerate(vt) if t[0] not in ('ws', 'comment')]
     for kw in MULTIWORD:
-        words = kw.split(' ')
-        pat = r'(?<![A-Za-z0-9-])' + r'(\s|--.*?(--|\n)|/\*.*?\*/)+'.join(map(re.escape, words)) + r'(?![A-Za-z0-9-])'
-        for m in re.finditer(pat, variant, re.S):
-            if m.group(0) != kw:
-                return True
+        parts = kw.split(' ')
+        for a in range(len(words) - len(parts) + 1):
+            idx = words[a:a + len(parts)]
+            if [vt[i][1] for i in idx] != parts:
+                continue
+            for x, y in zip(idx, idx[1:]):
+                if ''.join(l for _, l in vt[x + 1:y]) != ' ':
+                    return True
     return False
 
 
